@@ -39,6 +39,14 @@
 (*                                          j - mode*s, nx' = nx + 2*mode*s *)
 (*      subgrid [lo, hi[   child node j   = parent node lo + j              *)
 (*                                                                         *)
+(* Every conversion and every derived-grid construction is a FUNCTION of   *)
+(* the geometry: the model has no object state at all.  The real Grid /     *)
+(* DbGrid objects have mutable work members; that they behave as this       *)
+(* function is stated by the "history" cases (section Histories below):      *)
+(* whatever operations an object has been asked before (its state = the      *)
+(* sequence of operations already applied), the next operation must give     *)
+(* the outcome it gives on a fresh object.                                   *)
+(*                                                                         *)
 (* The model is a "case model": an initial state per grid, one successor    *)
 (* state per case (node, query point, derived grid ...) which carries the   *)
 (* input and the expected results.  TLC checks the invariants of C16 on     *)
@@ -54,7 +62,8 @@ CONSTANTS NDims,         \* set of space dimensions (subset of 1..3)
           AngVecs(_),    \* nd |-> set of tuples of angle codes
           MultVecs(_),   \* nd |-> set of multiplicity / subdivision vectors
           ShiftVecs(_),  \* nd |-> set of dilation vectors
-          Kinds          \* families of cases to generate
+          Kinds,         \* families of cases to generate
+          HistoryGrid(_) \* the grids on which the histories of operations are enumerated
 
 -----------------------------------------------------------------------------
 (* Small vectors (nd <= 3) as true tuples                                   *)
@@ -327,7 +336,41 @@ MigrateCase(g) ==
 Limits(g) == { lh \in [1..g.nd -> (0..MaxNx) \X (0..MaxNx)] :
                  \A k \in 1..g.nd : lh[k][1] < lh[k][2] /\ lh[k][2] <= g.nx[k] }
 
+-----------------------------------------------------------------------------
+(* Histories.  The grid object seen as a state machine: its state is the sequence of operations *)
+(* already applied to it, the observable is the outcome of the next operation.  In the model the *)
+(* outcome of an operation is Outcome(g, o) = the case record o itself (its expected fields are   *)
+(* functions of the geometry g and of the arguments only): the law "Fresh" is that the outcome    *)
+(* does not depend on the state.  The operations are ordinary cases drawn from the grid:          *)
+(* conversions on the last node and on node 0, on a point of the last cell, on an outside point   *)
+(* (failing conversions: no index, rank -1), multiple / divider in both modes, dilate in both      *)
+(* modes, the sub-grid of the last node.                                                           *)
+
+LastIdx(g)  == Tup(g.nd, LAMBDA k : g.nx[k] - 1)
+HistPool(g) ==
+  LET m2 == Tup(g.nd, LAMBDA k : IF g.nx[k] >= 2 THEN 2 ELSE 1)
+      m3 == Tup(g.nd, LAMBDA k : <<2, 3, 2>>[k])
+      s1 == Tup(g.nd, LAMBDA k : <<1, 0, 2>>[k])
+      s2 == Tup(g.nd, LAMBDA k : IF g.nx[k] >= 3 THEN 1 ELSE 0) IN
+  { NodeCase(g, NTot(g.nd, g.nx) - 1), NodeCase(g, 0),
+    PointCase(g, Tup(g.nd, LAMBDA k : 4 * (g.nx[k] - 1) + 1)), PointCase(g, Tup(g.nd, LAMBDA k : -3)),
+    MultCase(g, "multiple", m2, TRUE), MultCase(g, "multiple", m2, FALSE),
+    MultCase(g, "divider", m3, TRUE), MultCase(g, "divider", m3, FALSE),
+    DilateCase(g, 1, s1), DilateCase(g, -1, s2),
+    SubCase(g, LastIdx(g), g.nx) }
+
+ObjInit          == << >>                       \* a fresh object
+ObjApply(h, o)   == Append(h, o)                \* the state after one more operation
+Outcome(g, h, o) == o                           \* Fresh: the state h does not matter
+
+\* the object after the operation a is asked b: one case, both outcomes are compared
+HistoryCase(g, a, b) ==
+  LET h1 == ObjApply(ObjInit, a) IN
+  [k |-> "history", g |-> g, seq |-> << Outcome(g, ObjInit, a), Outcome(g, h1, b) >>]
+HistoryCases(g) == { HistoryCase(g, ab[1], ab[2]) : ab \in { x \in HistPool(g) \X HistPool(g) : x[1] # x[2] } }
+
 CasesOf(g) ==
+  (IF "history" \in Kinds /\ HistoryGrid(g) THEN HistoryCases(g) ELSE {}) \cup
   (IF "node" \in Kinds THEN { NodeCase(g, r) : r \in 0..(NTot(g.nd, g.nx) - 1) } ELSE {})
   \cup (IF "point" \in Kinds THEN { PointCase(g, q) : q \in QSet(g) } ELSE {})
   \cup (IF "multiple" \in Kinds
@@ -376,8 +419,15 @@ DerivedOk(c) ==
     [] c.k = "dilate"   -> DilateWhereParentIs(c.g, c.mode, c.s, c.ch)
     [] c.k = "subgrid"  -> SubGridWhereParentIs(c.g, c.lo, c.hi, c.ch)
 
+SimpleOk(c) ==
+  CASE c.k = "node" -> NodeOk(c)
+    [] c.k = "point" -> PointOk(c)
+    [] c.k \in {"multiple", "divider", "dilate", "subgrid"} -> DerivedOk(c) /\ Len(c.XS.ns) = NTot(c.g.nd, c.nx)
+
 CaseOk(c) ==
   CASE c.k = "grid" -> IsRotation(c.g)
+    [] c.k = "history" -> /\ \A i \in 1..Len(c.seq) : c.seq[i].g = c.g /\ SimpleOk(c.seq[i])
+                          /\ \A i \in 1..Len(c.seq) : c.seq[i] \in HistPool(c.g)    \* = the outcome on a fresh object
     [] c.k = "node" -> NodeOk(c)
     [] c.k = "point" -> PointOk(c)
     [] c.k \in {"multiple", "divider", "dilate", "subgrid"} -> DerivedOk(c) /\ Len(c.XS.ns) = NTot(c.g.nd, c.nx)
